@@ -58,6 +58,19 @@ def check(rep, tier):
         except Exception as e:
             rep.violation("crash %s" % type(e).__name__, "cnt raises %r for %s cn=%r" % (e, p, cn), dict(program=p, cnTemp=cn))
             continue
+        if rng.random() < 0.3 and p["holds"]:
+            # the trigger time is a function of the CURRENT program: edit the program on the same object and ask again
+            p2 = dict(p, holds=[dict(h, duration=h["duration"] + rng.choice([60, 300, 7])) for h in p["holds"]])
+            try:
+                op.holding = [dict(h) for h in p2["holds"]]
+                c_edit = int(op.cnt)
+                c_fresh = int(gen_opcond.build(p2, oc, cnTemp=cn).cnt)
+                if c_edit != c_fresh:
+                    rep.violation("stale-trigger-after-edit", "after lengthening the holds on the same object cnt stays %d, a fresh object with the edited program gives %d (%s, cnTemp=%r)"
+                                  % (c_edit, c_fresh, p2, cn), dict(program=p, edited=p2, cnTemp=cn, history=["cnt", "holding = ...", "cnt"]))
+            except Exception as e:
+                rep.violation("crash-after-edit %s" % type(e).__name__, "editing the program raises %r" % e, dict(program=p2))
+            rep.count("edited-programs")
         rep.case(repr((sorted(p.items(), key=str), cn)), nontrivial=cn in temps)
         rep.count("cn-at-hold" if cn in temps else "cn-on-ramp")
         # oracle: the trigger is the end of the hold at cnTemp / the ramp crossing, within one second per program segment
